@@ -2,49 +2,46 @@ import AranyaV.Proofs.CompileProg
 /-!
 # C22 — Compiled policy code computes the language semantics
 
-Full statement (kept at full strength; proved in stages, see `notes/C22.md`):
+`compile_correct` — for every program `p` whose compilation succeeds (`compileProgram p.structs
+p.funs = some cp`), every function `f`, every argument vector and every fuel `n`:
+  * `evalFn p n f args = .val v l`  ⇒ some run of the VM from `VM.init entry args` ends in
+    `exited Normal` with stack `[v]` and foreign-call log `l`;
+  * `evalFn … = .exit r l` ⇒ the run exits with reason `r` (a policy panic) after the calls `l`;
+  * `evalFn … = .ffiErr l` ⇒ the run ends in the foreign-function error after the calls `l`.
+No typing hypothesis is needed: an ill-typed program makes the evaluator `stuck`, about which
+nothing is claimed here (C24).  The remaining hypotheses are side conditions on the model's
+parameters: the foreign-function arity table agrees with the foreign functions' behaviour
+(`FfiOk`), and struct definitions have distinct field names (the compiler's `define_struct`
+rejects duplicates).
 
-  `compile_correct` — for every program `prog` accepted by lowering, its compiled code
-  `cp = compileProgram prog.structs prog.funs`, every function `f`, every argument vector `args`
-  and every fuel `n`:
-    * `evalFn prog n f args = .val v l`  ⇒ `∃ k, run ⟨cp.prog, prog, arity⟩ k (VM.init entry args)
-        = .exited .Normal s` with `s.stack = [v]` and `s.log = l`;
-    * `evalFn … = .exit r l` ⇒ the run exits with reason `r` after exactly the foreign calls `l`;
-    * `evalFn … = .ffiErr l` ⇒ the run ends in the foreign-function error after the calls `l`.
-
-The engine is the code-at-pc simulation lemma (`ExprSim`): if the resolved image of
-`compileExpr e` sits at `wp` and the labels it defines resolve to the addresses the compiler gave
-them, then from any activation state at `wp` the VM runs to `wp + |code|` with the value of `e`
-pushed (scopes, call stack and the stack below untouched) — or exits / returns / fails exactly as
-`eval` says.  It is proved by induction on the evaluator's fuel.
-
-Proved so far (fragment `supE` / `supS`): literals, variables, enum references, `Some/Ok/Err`,
-`!`, `is Some/None`, field access, `as`, `== != < > <= >=`, `&& || or` with their short-circuit
-jumps, `if` expressions, block expressions, the builtins `add/sub` (checked, `None` exactly on
-i64 overflow) and `saturating_add/sub`, `todo()`, `return` (also from inside nested blocks and
-operand positions), user function calls (prologue, `SaveSP/RestoreSP`, `Call/Return`, falling
-off the end panics); statements `let`, `check`, `return`, `debug_assert`, `if/else if/else`.
-Not yet: struct literals, `substruct`, foreign calls, `match` (covered by the tie only).
-
-* `exec_compile_arith_partial` — the code-at-pc simulation for expressions of the fragment,
-* `compile_correct_noMatch_partial` — the program-level statement for programs whose function
-  bodies lie in the fragment, from `compileProgram = some cp` (no layout hypotheses).
+The engine is the code-at-pc simulation `exec_compile`: if the resolved image of `compileExpr e`
+sits at `wp` and the labels it defines resolve to the addresses the compiler gave them, then from
+any activation state at `wp` the VM runs to `wp + |code|` with the value of `e` pushed (scopes,
+call stack and the stack below untouched) — or exits / returns / fails exactly as `eval` says.  It
+is proved by induction on the evaluator's fuel, simultaneously for expressions, argument lists,
+struct-literal fields, statements, statement blocks, `if` chains, pattern tests, arm selection
+and function bodies (`AllSim`), covering every construct of `Spec.Lang`: literals, variables,
+`Some/Ok/Err`, struct literals, `if`, `todo()`, builtin / user / foreign calls, `return` (also
+from nested blocks and operand positions), enum references, `&& || or`, field access,
+comparisons, `!`, `is`, block expressions, `substruct`, `as`, `match` (literal / binding /
+default arms); statements `let`, `check`, `match`, `if`, `return`, `debug_assert`.
 -/
 namespace AranyaV.Lang
 open AranyaV.Gen.Lang
 
-/-- **C22, stage 1** (`_partial`: expression fragment `supE`; struct literals, `substruct`,
-`match` and foreign calls are not covered yet).  `hP` states that the program's functions sit
-where their labels point (`funsOk_of_compile` derives it from `compileProgram = some cp`).
+/-- **C22, the simulation lemma for expressions** (every construct).  `hP` states that the
+program's functions sit where their labels point, that foreign-function arities are right and
+that struct definitions have distinct field names (`funsOk_of_compile` derives the first from
+`compileProgram = some cp`).
 
 `S.m.prog` is any program memory in which the resolved code of `e` sits at `wp` (`CodeAt`) and in
 which the labels `e`'s code defines resolve to the compiler's addresses (`DefsOk`).  The VM state
 is any state of a function activation: `junk` are temporaries of enclosing expressions, `base`
 the stack at function entry (`SaveSP` recorded `base.length`), `env` the block scopes, `fr` the
 callers' frames, `K` the callers' call stack. -/
-theorem exec_compile_arith_partial (S : Sim) (n : Nat) (e : Expr) (env : Env) (log : Log) (wp c : Nat)
+theorem exec_compile (S : Sim) (n : Nat) (e : Expr) (env : Env) (log : Log) (wp c : Nat)
     (junk base : List Val) (fr : List Env) (K : List Nat)
-    (hP : ProgOk S) (hfrag : supE e = true)
+    (hP : ProgOk S)
     (hcode : CodeAt S.labels S.m.prog wp (compileExpr S.m.p.structs wp c e).code)
     (hdefs : DefsOk S.labels (compileExpr S.m.p.structs wp c e).defs) :
     let s0 : VM := ⟨junk ++ base, env :: fr, base.length :: K, wp, log⟩
@@ -57,24 +54,22 @@ theorem exec_compile_arith_partial (S : Sim) (n : Nat) (e : Expr) (env : Env) (l
     -- an early return: the VM stands before `Return` with exactly `v :: base` on the stack
     (∀ v l, evalExpr S.m.p n env log e = .ret v l →
         ∃ envJ pcR, Steps S.m s0 ⟨v :: base, envJ :: fr, K, pcR, l⟩ ∧ S.m.prog[pcR]? = some .Return) := by
-  have h := (sim_all S hP n).e e env log wp c junk base fr K hfrag hcode hdefs
+  have h := (sim_all S hP n).e e env log wp c junk base fr K (supE_all e) hcode hdefs
   refine ⟨?_, ?_, ?_⟩
   · intro v l hv; rw [hv] at h; exact h
   · intro r l hv; rw [hv] at h; exact h
   · intro v l hv; rw [hv] at h; exact h
 
-/-- **C22, program level** (`_partial`: every function body in the fragment `supSs` — no struct
-literals, `substruct`, foreign calls or `match`; `hP.ffi` is the arity side condition on foreign
-functions and is vacuous for this fragment).
+/-- **C22, program level: `compile_correct`.**
 
 For a program whose compilation succeeds, running function `f` on `args` from the harness's
 initial state (`VM.init`: arguments pushed in order, pc at the function's label) ends exactly as
 the language semantics says: the value on an otherwise empty stack and a normal exit; or the
 policy exit; or the foreign-function error — each after the same foreign calls. -/
-theorem compile_correct_noMatch_partial (p : Program) (cp : Compiled) (ar : Nat → Nat → Option Nat)
+theorem compile_correct (p : Program) (cp : Compiled) (ar : Nat → Nat → Option Nat)
     (hc : compileProgram p.structs p.funs = some cp)
-    (hfrag : ∀ f fd, p.funDef f = some fd → supSs fd.body = true)
     (hffi : FfiOk ⟨cp.prog, p, ar⟩)
+    (hstructs : ∀ n d, p.structDef n = some d → (d.map (·.1)).Nodup)
     (n f : Nat) (args : List Val) (entry : Nat) (hentry : cp.entry f = some entry) :
     let m : Machine := ⟨cp.prog, p, ar⟩
     match evalFn p n f args with
@@ -84,7 +79,7 @@ theorem compile_correct_noMatch_partial (p : Program) (cp : Compiled) (ar : Nat 
     | _ => True := by
   intro m
   let S : Sim := ⟨m, cp.labels⟩
-  have hP : ProgOk S := ⟨funsOk_of_compile hc p rfl rfl ar, hfrag, hffi⟩
+  have hP : ProgOk S := ⟨funsOk_of_compile hc p rfl rfl ar, fun _ fd _ => supSs_all fd.body, hffi, hstructs⟩
   have h := fun_sim S hP n f args entry hentry
   show match evalFn S.m.p n f args with
     | .val v l => ∃ k t, run S.m k (VM.init entry args) = .exited .Normal t ∧ t.stack = [v] ∧ t.log = l
@@ -140,5 +135,26 @@ example : DefsOk exS.labels (compileExpr exS.m.p.structs 0 0 exE).defs := by
   simp only [exOut, exE, compileExpr, compileArgs, builtinInstr, List.mem_append, List.mem_cons, List.mem_singleton,
     List.not_mem_nil, or_false, false_or, List.nil_append, List.append_nil] at hq
   rcases hq with rfl | rfl <;> decide
+
+/-! ### non-vacuity of `compile_correct` -/
+
+/-- a one-function program: `function f(x int) int { let y = saturating_add(x, 1)
+    if y > 3 { return y }  return 0 }`  (identifiers: f = 20, x = 21, y = 22) -/
+def exFun : FunDef :=
+  { name := 20, params := [(21, .int)], ret := .int,
+    body := [.let_ 22 (.call 1 [.var 21, .int 1]),
+             .ifS [(.gt (.var 22) (.int 3), [.ret (.var 22)])] false [],
+             .ret (.int 0)] }
+def exProg2 : Program := { enums := [], structs := [], globals := [], funs := [exFun], ffi := fun _ _ _ => .bad }
+
+example : (compileProgram exProg2.structs exProg2.funs).isSome = true := by decide
+example : ((compileProgram exProg2.structs exProg2.funs).bind (·.entry 20)) = some 1 := by decide
+example (prog : List Instr) : FfiOk ⟨prog, exProg2, fun _ _ => none⟩ := by
+  intro mi pi vs h; simp [exProg2] at h
+example : ∀ n d, exProg2.structDef n = some d → (d.map (·.1)).Nodup := by
+  intro n d h; simp [exProg2, Program.structDef] at h
+/-- the evaluator gives the expected values, e.g. `f(i64::MAX) = i64::MAX` (saturation) and `f(1) = 0` -/
+example : (match evalFn exProg2 10 20 [.int 9223372036854775807] with | .val (.int v) _ => v | _ => 0) = 9223372036854775807 := by decide
+example : (match evalFn exProg2 10 20 [.int 1] with | .val (.int v) _ => v | _ => 7) = 0 := by decide
 
 end AranyaV.Lang
